@@ -90,7 +90,9 @@ def run_case(ctx, classes, scen):
             if world.obj.name != model.nick:
                 bad(i, step, "object's name differs from the trimmed nickname", name=world.obj.name, expected=model.nick)
         elif name == "query_nickname":
-            if world.obj.name != model.nick.strip():
+            # a board without a nickname: the statement does not say how "no name" is represented on the
+            # object (None as after construction, or the empty string) - both are accepted
+            if world.obj.name != model.nick.strip() and not (model.nick.strip() == "" and not world.obj.name):
                 bad(i, step, "nickname read back differs from the trimmed written one", name=world.obj.name,
                     expected=model.nick.strip())
         elif name == "motors_enable":
